@@ -144,7 +144,18 @@ async fn one_run(run: u64, seed: u64, big: bool) -> Value {
                 .get_stream(&sref, &dir, TaskId::new(JobId::new(1), JobTaskId::new(task)), InstanceId::new(inst))
                 .unwrap();
             pump().await;
-            let after = files_of(&dir);
+            let mut after = files_of(&dir);
+            if !worker_file.contains_key(&worker) {
+                // the first stream of a worker creates its file on the blocking pool: wait until it exists, otherwise
+                // the file would be attributed to the next worker that starts (and cut by that worker's crash)
+                let mut tries = 0;
+                while after.iter().all(|f| before.contains(f)) && tries < 3000 {
+                    tokio::time::sleep(std::time::Duration::from_millis(1)).await;
+                    pump().await;
+                    after = files_of(&dir);
+                    tries += 1;
+                }
+            }
             if let Some(newf) = after.iter().find(|f| !before.contains(f)) {
                 worker_file.insert(worker, newf.clone());
             }
